@@ -2,4 +2,4 @@ SPECIFICATION Spec
 CONSTANTS
   MaxLen = 2
 INVARIANTS TypeOK NoGapNoOverlap InOrderWithinSegment AgreesWithClosedForm NoZeroLengthPieceIsLast EndHeading
-  DubinsNeverReverses DubinsForwardUnlessReversed EmitCase
+  DubinsNeverReverses DubinsForwardUnlessReversed ReversedReadsFromTheEnd EmitCase
